@@ -14,10 +14,11 @@ predicate is the excluded hypothesis of `c14_holds_partial`:
 
   F14d  pattern or URL text has leading/trailing `.` or `/`: the engine trims both, the expression and
         the subject string are not trimmed — e.g. the trailing-slash URL
-  F14e  the ENGINE selects a declaration whose own filter does not accept the request: what is left open in
-        C03/C13 after the trie repairs is the host/path boundary, which is not part of the trie key
-        (F03e/F13c: `a/b/y` declared after `a.b/x` is selected for `a.b/y`); the expression is right not to
-        cover it
+  F14e  the ENGINE selects a declaration whose own filter accepts the request only UP TO the host/path
+        boundary (`matchesLax` but not `matches`): what is left open in C03/C13 after the trie repairs — the
+        boundary is not part of the trie key (F03e/F13c: `a/b/y` declared after `a.b/x` is selected for
+        `a.b/y`); the expression is right not to cover it.  Any OTHER selection of a declaration that does not
+        accept the request (e.g. a host matched case-insensitively) is no known class: it is a violation.
 
 `assumptionsOK` = what the theorems assume about the inputs (NOT defect classes; the judge does not excuse a
 failure by them): the pattern is one `validateURL` accepts (`safe`: structure only), texts are canonical
@@ -99,10 +100,11 @@ def declsOf : Cfg → List Decl
 
 inductive Cls where
   | F14d | F14e
+  | overmatch     -- NOT a known class: the engine selects a declaration that does not accept the request
 deriving DecidableEq, Repr
 
 def Cls.id : Cls → String
-  | .F14d => "F14d" | .F14e => "F14e"
+  | .F14d => "F14d" | .F14e => "F14e" | .overmatch => "-"
 
 def Decl.acceptsMethod (d : Decl) (method : String) : Bool := d.methods.isEmpty || d.methods.contains method
 
@@ -118,11 +120,18 @@ def assumptionsOK (d : Decl) (method url : String) : Bool :=
   safe (splitURL d.url) && render (splitURL d.url) == d.url.toList && render (splitURL url) == url.toList &&
   tokenMethod method && d.methods.all tokenMethod
 
-/-- The known-defect class of (declaration, request), `none` = clean. -/
+/-- The declaration accepts the request EXCEPT for the host/path boundary (`matchesLax`): the class of the
+    engine over-matches that stay open in C03/C13 (the boundary is not part of the trie key). -/
+def acceptsUpToBoundary (d : Decl) (method url : String) : Bool :=
+  d.enabled && d.acceptsMethod method && matchesLax (splitURL d.url) (splitURL url)
+
+/-- The known-defect class of (declaration, request), `none` = clean; `overmatch` = the engine has no business
+    selecting this declaration (a violation of C03/C13's soundness, reported as a violation here too). -/
 def classify (d : Decl) (method url : String) : Option Cls :=
   if !untrimmed d url then some .F14d
-  else if !accepts d method url then some .F14e
-  else none
+  else if accepts d method url then none
+  else if acceptsUpToBoundary d method url then some .F14e
+  else some .overmatch
 
 def findDecl (ds : List Decl) (name : String) : Option Decl := ds.find? (·.name == name)
 
@@ -140,6 +149,7 @@ def reqVerdict (ds : List Decl) (method url : String) (sel : List String) (manag
     let cs := sel.map fun n => (findDecl ds n).map fun d => classify d method url
     if cs.any (· == none) then .violated "selected-undeclared-name"
     else if cs.any (· == some none) then .violated "engine-selects-clean-declaration-but-not-managed"
+    else if cs.any (· == some (some .overmatch)) then .violated "engine-selects-declaration-that-does-not-accept-the-request"
     else match cs.head? with
       | some (some (some c)) => .known c
       | _ => .ok
